@@ -153,8 +153,13 @@ pub trait IntoParallelIterator: IntoIterator + Sized {
 impl IntoParallelIterator for std::ops::Range<usize> {}
 pub trait ParallelSliceMut<T> {
     fn par_chunks_mut(&mut self, n: usize) -> std::slice::ChunksMut<'_, T>;
+    /// rayon's par_sort_by is a stable sort, like slice::sort_by
+    fn par_sort_by(&mut self, f: impl Fn(&T, &T) -> Ordering);
 }
 impl<T> ParallelSliceMut<T> for [T] {
+    fn par_sort_by(&mut self, f: impl Fn(&T, &T) -> Ordering) {
+        self.sort_by(f)
+    }
     fn par_chunks_mut(&mut self, n: usize) -> std::slice::ChunksMut<'_, T> {
         self.chunks_mut(n)
     }
